@@ -13,6 +13,8 @@
   Helper lemmas: Props/Lemmas/C07_Save.lean, C07_Layers.lean, C07_Global.lean, C07_GlobalRun.lean.
 -/
 import Props.Lemmas.C07_GlobalRun
+import Props.Lemmas.C07_Escapes
+import Props.Lemmas.C07_Nodup
 
 namespace Pypyr.C07
 open Pypyr Pypyr.Flow Pypyr.C04
@@ -101,31 +103,37 @@ theorem saveError_succeeds_when (d : StepDef) (s : St) (e : ExcV) (sw : Bool) (c
 theorem conditional_records_exactly_one (d : StepDef) (inner : Body) (s s1 s2 : St) (e : ExcV) (sw : Bool)
     (hrun : fmtB s d.run = .ok true) (hskip : fmtB s d.skip = .ok false)
     (hi : inner s = (s1, .err e false))
-    (hsw : fmtB s1 d.swallow = .ok sw) (hsave : saveError d s1 e sw = (s2, .ok)) :
+    (hsw : fmtB s1 d.swallow = .ok sw) (hsave : saveError d (logEscape d s1 e false) e sw = (s2, .ok)) :
     runConditional d inner s = (s2, if sw then .ok else .err e false) ∧
     ∃ ce, customError d s1 = .ok ce ∧
       runErrorsOf s2 = runErrorsOf s1 ++ [entry d e sw ce] ∧
       (runErrorsOf s2).length = (runErrorsOf s1).length + 1 ∧
-      (∀ k, k ≠ "runErrors" → Ctx.get? s2.ctx k = Ctx.get? s1.ctx k) := by
+      (∀ k, k ≠ "runErrors" → Ctx.get? s2.ctx k = Ctx.get? s1.ctx k) ∧
+      s2.escapes = s1.escapes ++ [⟨d, e, s1.ctx⟩] := by
   constructor
   · rw [runConditional_eq, hrun]; simp only [hskip]
-    rw [hi]; simp only [swallowWrap, hsw, hsave, Bool.false_eq_true, if_false]
+    rw [hi]; simp only [swallowWrap, fmtB_logEscape, hsw, hsave, Bool.false_eq_true, if_false]
     cases sw <;> rfl
-  · obtain ⟨ce, hc, hs2⟩ := saveError_ok d s1 s2 e sw hsave
+  · obtain ⟨ce, hc, hs2⟩ := saveError_ok d _ s2 e sw hsave
+    rw [customError_logEscape] at hc
     have hre : runErrorsOf s2 = runErrorsOf s1 ++ [entry d e sw ce] := by
-      rw [hs2]; exact runErrorsOf_set _ _ _
-    refine ⟨ce, hc, hre, by rw [hre]; simp, ?_⟩
-    intro k hk; rw [hs2]; exact ctx_get_set_ne _ _ _ _ (fun e => hk e.symm)
+      rw [hs2, runErrorsOf_set, runErrorsOf_logEscape]
+    refine ⟨ce, hc, hre, by rw [hre]; simp, ?_, ?_⟩
+    · intro k hk; rw [hs2]
+      simp only [logEscape_ctx]
+      exact ctx_get_set_ne _ _ _ _ (fun e => hk e.symm)
+    · rw [hs2]; rfl
 
 /-- **An error that already came through a call step is not recorded a second time**: for
     `.err e true` the layer calls `save_error` not at all — the state is exactly the inner
-    layer's — and then swallows or re-raises the original error as usual. -/
+    layer's (the ghost log included: no event) — and then swallows or re-raises the original error as usual. -/
 theorem conditional_does_not_rerecord_handled (d : StepDef) (inner : Body) (s s1 : St) (e : ExcV) (sw : Bool)
     (hrun : fmtB s d.run = .ok true) (hskip : fmtB s d.skip = .ok false)
     (hi : inner s = (s1, .err e true)) (hsw : fmtB s1 d.swallow = .ok sw) :
     runConditional d inner s = (s1, if sw then .ok else .err e false) := by
+  have hl : logEscape d s1 e true = s1 := by simp [logEscape]
   rw [runConditional_eq, hrun]; simp only [hskip]
-  rw [hi]; simp only [swallowWrap, hsw, if_true]
+  rw [hi]; simp only [swallowWrap, hl, hsw, if_true]
   cases sw <;> rfl
 
 /-- **Executions that do not raise, and control-of-flow instructions, add nothing**: for every
@@ -162,19 +170,22 @@ theorem conditional_adds_at_most_one (d : StepDef) (inner : Body) (s : St) :
       cases r with
       | err e handled =>
         simp only []
+        have hl := runErrorsOf_logEscape d s1 e handled
+        generalize logEscape d s1 e handled = s1' at hl
+        rw [← hl]
         split
         · left; rfl
         · rename_i sw _
           by_cases hh : handled = true
           · left; simp only [hh, if_true]; split <;> rfl
           · simp only [hh]
-            have key : runErrorsOf (saveError d s1 e sw).1 = runErrorsOf s1 ∨
-                ∃ ent, runErrorsOf (saveError d s1 e sw).1 = runErrorsOf s1 ++ [ent] := by
-              rcases saveError_ctx d s1 e sw with h | ⟨ent, h⟩
-              · left; exact runErrorsOf_congr s1 _ (by rw [h])
+            have key : runErrorsOf (saveError d s1' e sw).1 = runErrorsOf s1' ∨
+                ∃ ent, runErrorsOf (saveError d s1' e sw).1 = runErrorsOf s1' ++ [ent] := by
+              rcases saveError_ctx d s1' e sw with h | ⟨ent, h⟩
+              · left; exact runErrorsOf_congr s1' _ (by rw [h])
               · right; refine ⟨ent, ?_⟩
                 unfold runErrorsOf; rw [h, ctx_get_set_self]; rfl
-            generalize saveError d s1 e sw = q at key
+            generalize saveError d s1' e sw = q at key
             obtain ⟨s2, r2⟩ := q
             cases r2 <;> simp only [Bool.false_eq_true, if_false] <;> first
               | exact key
@@ -190,7 +201,7 @@ theorem conditional_adds_at_most_one (d : StepDef) (inner : Body) (s : St) :
     by the conditional layer above it (once: `conditional_records_exactly_one`). -/
 theorem retry_records_nothing (cfg : RetryCfg) (fr : Frame) (inner : Frame → Body)
     (hi : ∀ fr' s', Ctx.get? (inner fr' s').1.ctx "runErrors" = Ctx.get? s'.ctx "runErrors") :
-    (∀ (max : Option Nat) (fuel k : Nat) (bo : BackoffState) (s : St),
+    (∀ (max : Option Int) (fuel k : Nat) (bo : BackoffState) (s : St),
       Ctx.get? (retryIter cfg fr inner max fuel k bo s).1.ctx "runErrors" = Ctx.get? s.ctx "runErrors") ∧
     (∀ (fuel : Nat) (s : St),
       Ctx.get? (retryLoop cfg fr inner fuel s).1.ctx "runErrors" = Ctx.get? s.ctx "runErrors") :=
@@ -200,7 +211,7 @@ theorem retry_records_nothing (cfg : RetryCfg) (fr : Frame) (inner : Frame → B
 /-- in particular: a failed attempt followed by a successful one. -/
 theorem recovered_attempt_adds_nothing (cfg : RetryCfg) (fr : Frame) (inner : Frame → Body)
     (hi : ∀ fr' s', Ctx.get? (inner fr' s').1.ctx "runErrors" = Ctx.get? s'.ctx "runErrors")
-    (max : Option Nat) (fuel k : Nat) (bo : BackoffState) (s : St) :
+    (max : Option Int) (fuel k : Nat) (bo : BackoffState) (s : St) :
     runErrorsOf (retryIter cfg fr inner max fuel k bo s).1 = runErrorsOf s :=
   runErrorsOf_congr s _ ((retry_records_nothing cfg fr inner hi).1 max fuel k bo s)
 
@@ -222,12 +233,29 @@ theorem loops_record_nothing (fr : Frame) (inner : Frame → Body)
     `runErrors`. -/
 theorem invoke_marks_handled (fr : Frame) (body : Body) (callee : CofCfg → Body) (s s1 s2 : St)
     (c : CofCfg) (e : ExcV) (h : Bool)
-    (hb : body s = (s1, .call c)) (hc : callee c s1 = (s2, .err e h)) :
+    (hb : body s = (s1, .call c)) (hc : callee c s1 = (s2, .err e h)) (hco : c.original.truthy = true) :
     invokeStep fr body callee s = (resetCounters fr c s2, .err e true) ∧
     (c.key ≠ "runErrors" →
       Ctx.get? (resetCounters fr c s2).ctx "runErrors" = Ctx.get? s2.ctx "runErrors") := by
   refine ⟨?_, fun hk => rel_resetCounters sameRE fr c s2 (by simpa using hk)⟩
-  rw [invokeStep_call fr body callee s s1 s2 c _ hb hc]
+  rw [invokeStep_call fr body callee s s1 s2 c _ hb hc hco]
+
+/-- … unless the raw configuration under the instruction's key is falsy (`call: ''`, `call: []`): then the
+    `assert` in the `finally` of `invoke_step` fails and its AssertionError - a fresh exception object,
+    NOT marked as handled - replaces whatever the called groups ended with. It is an error escaping this
+    step's body, so this step records it (once: `conditional_records_exactly_one`); `runErrors` itself is
+    not touched by `invoke_step`. -/
+theorem invoke_falsy_config_raises_unmarked (fr : Frame) (body : Body) (callee : CofCfg → Body) (s s1 s2 : St)
+    (c : CofCfg) (r : Res)
+    (hb : body s = (s1, .call c)) (hc : callee c s1 = (s2, r)) (hco : c.original.truthy = false)
+    (hf : r ≠ .outOfFuel) :
+    (invokeStep fr body callee s).2 = .err ⟨s2.nextExc, "AssertionError", ""⟩ false ∧
+    (invokeStep fr body callee s).1.ctx = (resetLoopCounters fr s2).ctx ∧
+    Ctx.get? (invokeStep fr body callee s).1.ctx "runErrors" = Ctx.get? s2.ctx "runErrors" := by
+  have h1 := invokeStep_call_assert fr body callee s s1 s2 c r hb hc hco hf
+  refine ⟨by rw [h1]; rfl, by rw [h1]; rfl, ?_⟩
+  rw [h1]
+  exact rel_resetLoopCounters sameRE fr s2
 
 /-- an error raised by the step module itself is *not* marked: it will be recorded by this step. -/
 theorem invoke_own_error_unmarked (fr : Frame) (body : Body) (callee : CofCfg → Body) (s s1 : St)
@@ -242,11 +270,12 @@ theorem called_error_not_recorded_again (d : StepDef) (fr : Frame) (body : Body)
     (s s1 s2 : St) (c : CofCfg) (e : ExcV) (h sw : Bool)
     (hrun : fmtB s d.run = .ok true) (hskip : fmtB s d.skip = .ok false)
     (hb : body s = (s1, .call c)) (hc : callee c s1 = (s2, .err e h)) (hk : c.key ≠ "runErrors")
+    (hco : c.original.truthy = true)
     (hsw : fmtB (resetCounters fr c s2) d.swallow = .ok sw) :
     runConditional d (invokeStep fr body callee) s =
       (resetCounters fr c s2, if sw then .ok else .err e false) ∧
     runErrorsOf (runConditional d (invokeStep fr body callee) s).1 = runErrorsOf s2 := by
-  have h1 := invoke_marks_handled fr body callee s s1 s2 c e h hb hc
+  have h1 := invoke_marks_handled fr body callee s s1 s2 c e h hb hc hco
   have h2 := conditional_does_not_rerecord_handled d _ s _ e sw hrun hskip h1.1 hsw
   refine ⟨h2, ?_⟩
   rw [h2]
@@ -268,7 +297,8 @@ theorem runErrors_append_only (fr : Frame) (inner : Frame → Body) (hi : ∀ fr
     (∀ cfg fuel, Keeps PrefixRE (whileLoop cfg fr inner fuel)) :=
   ⟨fun cfg max fuel k bo => retryIter_keeps prefixRE cfg fr inner max hi fuel k bo,
    fun cfg fuel => retryLoop_keeps prefixRE cfg fr inner fuel hi,
-   fun d => runConditional_keeps prefixRE d _ (saveError_prefix d) (hi fr),
+   fun d => runConditional_keeps prefixRE d _ (fun s e sw _ => record_prefix d s e sw)
+     (fun s e _ _ => log_prefix d s e) (hi fr),
    fun items => foreachItems_keeps prefixRE fr inner hi items,
    fun raw => foreachLoop_keeps prefixRE raw fr inner hi,
    fun cfg max sleep eom fuel k => whileIter_keeps prefixRE cfg fr inner max sleep eom hi fuel k,
@@ -288,16 +318,17 @@ theorem runErrors_append_only_step (d : StepDef) (body : Body) (callee : CofCfg 
     (hb : Keeps PrefixRE body) (hc : ∀ c, Keeps PrefixRE (callee c))
     (hkey : ∀ s s1 c, body s = (s1, .call c) → c.key ≠ "runErrors") :
     Keeps PrefixRE (runStepWith d body callee fuel) :=
-  runStepWith_keeps prefixRE d body callee fuel (saveError_prefix d) hb hc
+  runStepWith_keeps prefixRE d body callee fuel (fun s e sw _ => record_prefix d s e sw)
+    (fun s e _ _ => log_prefix d s e) hb hc
     (fun s s1 c h => by simpa using hkey s s1 c h)
     (fun s => prefixRE.same _ _ (fun k hk => by
       simp only [List.mem_cons, List.not_mem_nil, or_false] at hk
       subst hk
-      rw [setIn_eq]; exact ctx_get_update_notin _ _ _ hin))
+      rw [setIn_eq]; exact ctx_get_update_notin _ _ _ hin) (by rw [setIn_eq]))
     (fun s => prefixRE.same _ _ (fun k hk => by
       simp only [List.mem_cons, List.not_mem_nil, or_false] at hk
       subst hk
-      rw [unsetIn_eq]; exact ctx_get_eraseAll_notin _ _ _ hin))
+      rw [unsetIn_eq]; exact ctx_get_eraseAll_notin _ _ _ hin) (by rw [unsetIn_eq]))
 
 /-! ## the global statement -/
 
@@ -337,6 +368,124 @@ theorem run_appends_only (prog : Program) (hp : progOk prog = true) (fuel : Nat)
   obtain ⟨s1, r⟩ := p
   cases r <;> exact h.2
 
+/-! ## exactly once, for a whole run: `runErrors` = the escapes
+
+The interpreter model keeps a ghost log `St.escapes` (never read by the model): `run_conditional_decorators`
+appends one record (step, exception object, context of that moment) each time the inner layer - the retry
+loop or the bare `invoke_step` - comes back with an error that is not marked as already handled: precisely
+the event "an error escaped this step's body after its retries were exhausted". -/
+
+/-- what `entry?` is: a pure function of the logged event - the record of `saveError_entry` with
+    `swallowed` / `customError` = the step's `swallow` / `onError` formatted in the context of the event;
+    nothing when one of them does not format (its formatting error propagates instead of an entry). -/
+theorem entry?_spec (x : Escape) :
+    (∀ sw ce, fmtB { ctx := x.ctx } x.step.swallow = .ok sw → customError x.step { ctx := x.ctx } = .ok ce →
+      entry? x = some (entry x.step x.exc sw ce)) ∧
+    (∀ e, fmtB { ctx := x.ctx } x.step.swallow = .error e → entry? x = none) ∧
+    (∀ e, customError x.step { ctx := x.ctx } = .error e → entry? x = none) := by
+  refine ⟨fun sw ce h1 h2 => ?_, fun e h => ?_, fun e h => ?_⟩
+  · unfold entry?; rw [h1, h2]
+  · unfold entry?; rw [h]
+  · unfold entry?; rw [h]; split <;> simp_all
+
+/-- **Every escape exactly one entry, nothing else any, in chronological order - over a whole run.** For every
+    program satisfying `progOk` (no step can write `runErrors` behind the interpreter's back), every fuel,
+    every pipeline instance, from every state whose `runErrors` is absent or a list (`REok`) and that holds no
+    probe configuration: the `runErrors` list at the end of `Pipeline.run` is the list at the start followed
+    by the entries (`entry?`) of the escapes logged during the run, in the order in which they were logged.
+    So an error that escapes a step's body is recorded once (never twice: an error travelling on through
+    enclosing call steps is not an escape of those steps - it is marked handled), one that is recovered by a
+    retry, a control-of-flow instruction, a normal completion never is, and nothing is ever removed,
+    reordered or altered. -/
+theorem runErrors_are_the_escapes (prog : Program) (hp : progOk prog = true) (fuel : Nat) (pi : PipeInst) (s : St)
+    (hs : Ctx.get? s.ctx "p" = none) (hr : REok s) :
+    ∃ new, (runRoot fuel prog pi s).1.escapes = s.escapes ++ new ∧
+      runErrorsOf (runRoot fuel prog pi s).1 = runErrorsOf s ++ new.filterMap entry? ∧
+      REok (runRoot fuel prog pi s).1 := by
+  have hsafe : SafeP s := fun cfg hc => by rw [hs] at hc; cases hc
+  have h := (allAcc prog hp fuel).2.2.2.2.2.2 pi s hsafe hr
+  rw [runRoot_eq]
+  generalize runPipeline fuel prog pi s = p at h
+  obtain ⟨s1, r⟩ := p
+  obtain ⟨_, hr1, new, h1, h2⟩ := h
+  cases r <;> exact ⟨new, h1, h2, hr1⟩
+
+/-- … for a run started on a context without `runErrors`: as many entries as escapes whose `swallow` and
+    `onError` format; never more entries than escapes. -/
+theorem runErrors_count (prog : Program) (hp : progOk prog = true) (fuel : Nat) (pi : PipeInst) (s : St)
+    (hs : Ctx.get? s.ctx "p" = none) (hr : Ctx.get? s.ctx "runErrors" = none) (he : s.escapes = []) :
+    runErrorsOf (runRoot fuel prog pi s).1 = (runRoot fuel prog pi s).1.escapes.filterMap entry? ∧
+    (runErrorsOf (runRoot fuel prog pi s).1).length ≤ (runRoot fuel prog pi s).1.escapes.length := by
+  obtain ⟨new, h1, h2, _⟩ := runErrors_are_the_escapes prog hp fuel pi s hs (.inl hr)
+  have h0 : runErrorsOf s = [] := by unfold runErrorsOf; rw [hr]; rfl
+  rw [h1, h2, h0, he]
+  simp only [List.nil_append]
+  exact ⟨trivial, List.length_filterMap_le _ _⟩
+
+/-- the same for every function of the runner (steps, step-groups, `run_step_groups`, pipelines), at every fuel:
+    `Acc a b` = "from `a` to `b`, `runErrors` grew by exactly the entries of the escapes logged meanwhile". -/
+theorem runErrors_are_the_escapes_everywhere (prog : Program) (hp : progOk prog = true) (fuel : Nat) :
+    (∀ pipe d, stepOk d = true → Keeps Acc (runStep fuel prog pipe d)) ∧
+    (∀ pipe ds, (∀ d, d ∈ ds → stepOk d = true) → Keeps Acc (runSteps fuel prog pipe ds)) ∧
+    (∀ pipe g rs, Keeps Acc (runStepGroup fuel prog pipe g rs)) ∧
+    (∀ pipe gs, Keeps Acc (runGroupList fuel prog pipe gs)) ∧
+    (∀ pipe g, Keeps Acc (runFailureGroup fuel prog pipe g)) ∧
+    (∀ pipe gs su fa, Keeps Acc (runGroups fuel prog pipe gs su fa)) ∧
+    (∀ pi, Keeps Acc (runPipeline fuel prog pi)) :=
+  allAcc prog hp fuel
+
+/-! ## no exception object is recorded twice -/
+
+/-- **The ids of the logged escapes increase strictly** - so they are pairwise distinct: no exception object
+    escapes two steps' bodies "as an unrecorded error". `K`: every logged exception exists (`id < nextExc`) and the
+    ids increase strictly in log order. For every `progOk` program (no pype step: the error that leaves a child
+    pipeline IS recorded a second time by the parent's pype step, in pypyr as in the model - DESIGN section 6), every
+    fuel, every pipeline instance, every start state with a well-formed log (an empty one, for instance).
+    Why: an exception gets its id when it is raised; between the raise and the `except` clause of the step that
+    records it nothing else is recorded (`InOk`: what the layers below the recording clause end with is newer than
+    everything in the log); an error that comes back out of called groups is marked as handled. -/
+theorem escape_ids_strictly_increase (prog : Program) (hp : progOk prog = true) (fuel : Nat) (pi : PipeInst) (s : St)
+    (hk : K s) :
+    K (runRoot fuel prog pi s).1 ∧ ((runRoot fuel prog pi s).1.escapes.map (·.exc.id)).Nodup := by
+  have h := (allUp prog hp fuel).2.2.2.2.2.2 pi s hk
+  have h' : K (runRoot fuel prog pi s).1 := by
+    rw [runRoot_eq]
+    generalize runPipeline fuel prog pi s = p at h
+    obtain ⟨s1, r⟩ := p
+    cases r <;> exact h
+  exact ⟨h', K_nodup _ h'⟩
+
+/-- … the same at every function of the runner, at every fuel -/
+theorem escape_ids_strictly_increase_everywhere (prog : Program) (hp : progOk prog = true) (fuel : Nat) :
+    (∀ pipe d, stepOk d = true → UpOk (runStep fuel prog pipe d)) ∧
+    (∀ pipe ds, (∀ d, d ∈ ds → stepOk d = true) → UpOk (runSteps fuel prog pipe ds)) ∧
+    (∀ pipe g rs, UpOk (runStepGroup fuel prog pipe g rs)) ∧
+    (∀ pipe gs, UpOk (runGroupList fuel prog pipe gs)) ∧
+    (∀ pipe g, UpOk (runFailureGroup fuel prog pipe g)) ∧
+    (∀ pipe gs su fa, UpOk (runGroups fuel prog pipe gs su fa)) ∧
+    (∀ pi, UpOk (runPipeline fuel prog pi)) :=
+  allUp prog hp fuel
+
+/-- **… hence no exception object appears twice in `runErrors`.** A run started without `runErrors` and with an
+    empty log: every entry of the final `runErrors` names an exception object (`exception`), and no two entries
+    name the same one. (With `runErrors_are_the_escapes`: the entries are the logged escapes, one each.) -/
+theorem no_exception_recorded_twice (prog : Program) (hp : progOk prog = true) (fuel : Nat) (pi : PipeInst) (s : St)
+    (hs : Ctx.get? s.ctx "p" = none) (hr : Ctx.get? s.ctx "runErrors" = none) (he : s.escapes = []) :
+    (∀ v ∈ runErrorsOf (runRoot fuel prog pi s).1, ∃ i, excIdOf v = some i) ∧
+    ((runErrorsOf (runRoot fuel prog pi s).1).filterMap excIdOf).Nodup := by
+  have hk : K s := by
+    refine ⟨fun x hx => ?_, ?_⟩
+    · rw [he] at hx; cases hx
+    · rw [he]; exact List.Pairwise.nil
+  have h1 := (runErrors_count prog hp fuel pi s hs hr he).1
+  have h2 := (escape_ids_strictly_increase prog hp fuel pi s hk).2
+  rw [h1]
+  refine ⟨?_, recorded_ids_nodup _ h2⟩
+  intro v hv
+  rw [List.mem_filterMap] at hv
+  obtain ⟨x, _, hxv⟩ := hv
+  exact ⟨x.exc.id, excIdOf_entry? x v hxv⟩
+
 /-! ## non-vacuity -/
 
 /-- (1) a step that fails twice and is recovered by its third attempt; (2) a failing step with
@@ -364,7 +513,8 @@ example : progOk demoProg = true := by decide +kernel
 
 /-- exactly two entries, in chronological order: the recovered attempts (exception objects 0, 1)
     left none; the swallowed failure (object 2) is recorded with its position, the formatted
-    `onError` and `swallowed = true`; the failure in the called group (object 3) is recorded once,
+    `onError` and `swallowed = true` (its `description` is `str(KeyError('first'))`, which Python quotes:
+    `'first'` with the quotes); the failure in the called group (object 3) is recorded once,
     by the step that raised it (`swallowed = false`, line 21), and **not** again by the call step
     it propagated through (line 15), although that step swallowed it. -/
 example :
@@ -372,7 +522,7 @@ example :
     r.2 = .ok ∧
     r.1.trace.map (fun ev => (ev.tag, ev.nerr)) = [("r", 0), ("r", 0), ("r", 0), ("s", 0), ("c", 1), ("end", 2)] ∧
     Ctx.get? r.1.ctx "runErrors" = some (.list [
-      .dict [(.str "name", .str "KeyError"), (.str "description", .str "first"),
+      .dict [(.str "name", .str "KeyError"), (.str "description", .str "'first'"),
              (.str "customError", .dict [(.str "by", .str "me")]),
              (.str "line", .int 9), (.str "col", .int 5), (.str "step", .str "vprobe"),
              (.str "exception", .obj 2), (.str "swallowed", .bool true)],
@@ -381,5 +531,22 @@ example :
              (.str "line", .int 21), (.str "col", .int 7), (.str "step", .str "vprobe"),
              (.str "exception", .obj 3), (.str "swallowed", .bool false)]]) := by
   decide +kernel
+
+/-- the ghost log of that run: two escapes - the swallowed KeyError of step `s` (object 2) and the TypeError of
+    the called group's step `c` (object 3); the recovered attempts (objects 0, 1) and the call step the TypeError
+    travelled through logged nothing; and `runErrors` is exactly the `entry?` image of the log. -/
+example :
+    let r := runRoot 50 demoProg { name := "main" } {}
+    r.1.escapes.map (fun x => (x.exc.id, x.exc.name, x.step.line)) =
+      [(2, "KeyError", some 9), (3, "TypeError", some 21)] ∧
+    Ctx.get? r.1.ctx "runErrors" = some (.list (r.1.escapes.filterMap entry?)) := by
+  decide +kernel
+
+/-- `no_exception_recorded_twice` on the demo: the start state has a well-formed (empty) log; the two entries name
+    the exception objects 2 and 3. -/
+example :
+    K ({} : St) ∧
+    (runErrorsOf (runRoot 50 demoProg { name := "main" } {}).1).filterMap excIdOf = [2, 3] :=
+  ⟨⟨fun _ h => (by cases h), List.Pairwise.nil⟩, by decide +kernel⟩
 
 end Pypyr.C07
